@@ -20,7 +20,8 @@ MODES = ("dynpie", "static", "staticpie")
 SIGNAMES = {4: "SIGILL", 6: "SIGABRT", 7: "SIGBUS", 8: "SIGFPE", 9: "SIGKILL", 11: "SIGSEGV", 5: "SIGTRAP"}
 STAGE_AFTER = {None: "before-main-output", "L": "args_os", "O": "args_os", "l": "args", "A": "args", "a": "args",
                "U": "env-lookup", "V": "env-lookup", "v": "env-lookup", "k": "env-lookup", "G": "aux", "P": "aux",
-               "p": "resolve", "R": "resolve", "r": "resolve", "E": "vdso-or-reloc", "T": "vdso-or-reloc", "S": "end"}
+               "p": "resolve", "R": "resolve", "r": "resolve", "E": "vdso-or-reloc", "T": "vdso-or-reloc", "S": "end", "W": "env-lookup",
+               "B": "end"}
 MAX_VIOL_PER_SIG = 6
 ARG_BUDGET = 1_400_000      # bytes of argv+envp strings and pointers per launch (kernel limit: stack rlimit / 4)
 
@@ -817,6 +818,64 @@ class Judge:
         self.ck.count("reloc_selftests")
         if got != exp:
             self.viol("C07/relocation/static-pointer-tables-wrong", lc, {"got": got.hex(), "expected": exp.hex()})
+        # relocation bait: tables in .rodata that decode as RELATIVE records under any stride/phase, canaries in .bss/.data;
+        # checked by the probe at main entry (a crash before main is the other outcome, judged as C07/crash/...)
+        b = by.get("B", [b""])[0]
+        if len(b) != 62:
+            self.ck.note_inconclusive("%s: no relocation-bait record from the probe" % cell)
+            return
+        base, checked, skipped, modified, first_off, first_val = struct.unpack_from("<QIIIQQ", b, 0)
+        bait_ok, data_ok = b[36], b[37]
+        bait_at, data_at, inbuf_at = struct.unpack_from("<3Q", b, 38)
+        self.ck.count("reloc_canary_words_checked", checked + 64)
+        self.ck.add_eval(1)
+        lay = BAIT_LAYOUT.get((lc.mode, lc.prof))
+        if lay and lay.get("bait_start") is not None and lay["bait_start"] - lay["image_base"] != bait_at and lc.path == lc.exe:
+            self.ck.note_inconclusive("%s: probe sees C07_BAIT at +%#x, nm says +%#x" % (cell, bait_at, lay["bait_start"] - lay["image_base"]))
+        if checked == 0:
+            self.ck.note_inconclusive("%s: no bait offset falls into the probe's .bss buffers (layout changed?)" % cell)
+        if modified or not bait_ok or not data_ok:
+            self.viol("C07/reloc/bait-or-canary-modified", lc,
+                      {"image_base": hex(base), "canary_words_checked": checked, "canary_words_modified": modified,
+                       "first_modified_link_offset": hex(first_off), "first_modified_value": hex(first_val),
+                       "value_minus_base": hex((first_val - base) & (2 ** 64 - 1)),
+                       "bait_tables_intact": bool(bait_ok), "data_canary_intact": bool(data_ok),
+                       "layout": lay})
+        self.ck.note_distinct("%s/reloc-bait/%s" % (cell, "base0" if base in (0, 0x200000, 0x400000) else "relocated"))
+
+
+BAIT_LAYOUT = {}
+
+
+def bait_layout(bins):
+    """Where does .rela.dyn end and how closely does the bait follow it? (readelf -S / nm on the six binaries)"""
+    out = {}
+    for (mode, prof), exe in sorted(bins.items()):
+        d = {"image_base": 0, "rela_dyn_end": None, "rela_dyn_size": None, "rodata_start": None, "bait_start": None}
+        try:
+            sec = subprocess.run(["readelf", "-SW", exe], stdout=subprocess.PIPE, stderr=subprocess.PIPE, timeout=60).stdout.decode()
+            for line in sec.splitlines():
+                f = line.replace("[", " ").replace("]", " ").split()
+                if len(f) >= 6 and f[1] == ".rela.dyn":
+                    d["rela_dyn_size"] = int(f[5], 16)
+                    d["rela_dyn_end"] = int(f[3], 16) + int(f[5], 16)
+                elif len(f) >= 6 and f[1] == ".rodata":
+                    d["rodata_start"] = int(f[3], 16)
+            nm = subprocess.run(["nm", exe], stdout=subprocess.PIPE, stderr=subprocess.PIPE, timeout=60).stdout.decode()
+            for line in nm.splitlines():
+                f = line.split()
+                if len(f) == 3 and f[2] == "C07_BAIT":
+                    d["bait_start"] = int(f[0], 16)
+                elif len(f) == 3 and f[2] == "__ehdr_start":
+                    d["image_base"] = int(f[0], 16)
+        except (OSError, ValueError, subprocess.TimeoutExpired):
+            pass
+        if d["rela_dyn_end"] is not None and d["bait_start"] is not None:
+            d["bait_gap_after_rela_dyn"] = d["bait_start"] - d["rela_dyn_end"]
+            # a walk that is 1.5 times too long reads rela_dyn_size / 2 bytes behind the table
+            d["bait_inside_1.5x_overrun_window"] = d["bait_gap_after_rela_dyn"] + 24 * 13 <= d["rela_dyn_size"] // 2
+        out[(mode, prof)] = d
+    return out
 
 
 # ------------------------------------------------------------------------------------------------
@@ -950,6 +1009,13 @@ def keys_small(envp, keys):
 
 def run(ck, replay=None):
     bins = build_all()
+    BAIT_LAYOUT.clear()
+    BAIT_LAYOUT.update(bait_layout(bins))
+    ck.extra["reloc_bait_layout"] = {"%s/%s" % k: v for k, v in BAIT_LAYOUT.items()}
+    for k, v in BAIT_LAYOUT.items():
+        if k[0] == "staticpie" and not v.get("bait_inside_1.5x_overrun_window"):
+            ck.note_inconclusive("staticpie/%s: relocation bait does not closely follow .rela.dyn (%r); an over-long relocation "
+                                 "walk may find nothing to bite on" % (k[1], v))
     sysmon = syslog.sysmon_bin()
     scratch = "/tmp/c07-%d" % os.getpid()
     shutil.rmtree(scratch, ignore_errors=True)
